@@ -249,8 +249,8 @@ def known_class(case, failure):
         col, mode = case[1], case[3]
         if col in ("kf", "kn") and failure in ("not-sorted-like-pandas", "dask-raises:TypeError"):
             return "null-in-index"
-        if col == "kz" and mode.startswith("plain-n") and failure == "dask-raises:AssertionError":
-            return "npartitions-on-string-column"
+        if mode.startswith("plain-n") and failure == "dask-raises:AssertionError":
+            return "npartitions-vs-collapsed-divisions"
     return None
 
 
